@@ -553,6 +553,37 @@ pub fn run(ctx: &mut Ctx) {
         }
         ctx.rec.cover(&format!("case|{}", k));
     }
+    // (a') the AGE of a state is not part of it: a state built long before it is run (longer than its
+    // eval_time_limit) must run exactly like a state built just now
+    if mode != "tsan" {
+        let mut aged = 0;
+        for (k, c) in kept.iter().take(400) {
+            if aged >= ctx.n(2, 6) {
+                break;
+            }
+            // terminating, quick programs only (the limit must not be the cause of anything)
+            let mut quick = c.clone();
+            quick.init.cfg.eval_time_limit = 120;
+            let t0 = std::time::Instant::now();
+            let fresh = run_case(&quick, false);
+            if t0.elapsed().as_millis() > 30 || fresh.is_err() {
+                continue;
+            }
+            let (mut is2, _n2) = new_iset();
+            let mut st = build_state(&quick.init);
+            std::thread::sleep(std::time::Duration::from_millis(300));
+            let r = guarded(|| {
+                let _ = PushInterpreter::run(&mut st, &mut is2);
+            });
+            let old = r.map(|_| Snap::of(&st).digest());
+            ctx.rec.count("runs", 2);
+            ctx.rec.count("aged_state_comparisons", 1);
+            aged += 1;
+            if old != fresh {
+                ctx.rec.violation("C14", "aged-state|digest-differs", &format!("case {}: a state built 300 ms before run() (eval_time_limit 120 ms) ended differently from one built just before run(): {:?} vs {:?} ; program {}", k, old, fresh, quick.init.e[0]), "");
+            }
+        }
+    }
     // (c) per-block digests for the offline debug/release comparison (blocks of 10 case numbers)
     let mut blocks: BTreeMap<u64, u64> = BTreeMap::new();
     for (k, d) in baseline.iter() {
